@@ -76,7 +76,10 @@ SPEC = {
         # full expression language (Model/FormatFull + Model/ParseFull)
         "source_fingerprints", "modifier_tables_agree", "roundtrip_xexpr_partial", "roundtrip_typeid_partial",
         "sizeof_shift_breaks", "template_arg_shift_breaks", "template_arg_comma_regroups", "template_arg_less_regroups",
-        "less_greater_paren_regroups"]] + [
+        "less_greater_paren_regroups",
+        # statements and local variable definitions (Model/FormatStmt + Model/ParseStmt)
+        "roundtrip_stmt_partial", "roundtrip_block_partial", "roundtrip_decl_partial", "dangling_else_regroups",
+        "attribute_comma_regroups", "for_init_pointer_reads_as_expr"]] + [
         # "every literal reads back with the same value and type": the reading half is property C10's; its literal
         # theorems and the shape obligations of the lexer's numeric functions are C09 obligations too (a change of
         # calculate_float64_from_parts / literal_*_int breaks them here as well)
